@@ -46,18 +46,20 @@ def int_in(ty):
 
 
 class State:
-    __slots__ = ("iv", "ge", "taint", "tags")
+    __slots__ = ("iv", "ge", "taint", "tags", "off")
 
     def __init__(self):
         self.iv = {}      # key -> (lo, hi)
         self.ge = set()   # (a, b): a >= b
         self.taint = set()
         self.tags = {}    # key -> tag (e.g. validator result)
+        self.off = {}     # key -> (base key, c): key == base + c (difference layer: lets `a - b` use facts about a +- const)
 
     def copy(self):
         s = State()
         s.iv = dict(self.iv)
         s.ge = set(self.ge)
+        s.off = dict(self.off)
         s.taint = set(self.taint)
         s.tags = dict(self.tags)
         return s
@@ -78,6 +80,10 @@ class State:
                         n = (n[0] if n[0] >= a[0] else (r[0] if r else n[0]), n[1] if n[1] <= a[1] else (r[1] if r else n[1]))
                     self.iv[k] = n
                     changed = True
+        for k in list(self.off):
+            if o.off.get(k) != self.off[k]:
+                del self.off[k]
+                changed = True
         g = self.ge & o.ge
         if g != self.ge:
             self.ge = g
@@ -218,6 +224,8 @@ class Analysis:
             return
         # invalidate facts about k
         st.ge = {(a, b) for (a, b) in st.ge if a != k and b != k}
+        if st.off:
+            st.off = {x: v for x, v in st.off.items() if x != k and v[0] != k}
         if iv is None:
             st.iv.pop(k, None)
         else:
@@ -410,6 +418,8 @@ class Analysis:
                     self.conds[dk[1]] = self.conds[src_l]
                 else:
                     self.conds.pop(dk[1], None)
+            if key is not None and dk is not None and key != dk:
+                st.off[dk] = (key, 0)
             if key is not None and dk is not None and iv is not None:
                 # equality: both directions
                 st.ge.add((dk, key))
@@ -462,6 +472,10 @@ class Analysis:
                 self.write(st, place, res, tn)
                 if dk is not None:
                     self.conds.pop(dk, None)
+                    if base in ("Add", "Sub") and ka is not None and kb is None and b is not None and b[0] == b[1] and ka != dk:
+                        st.off[dk] = (ka, b[0] if base == "Add" else -b[0])
+                    elif base == "Add" and kb is not None and ka is None and a is not None and a[0] == a[1] and kb != dk:
+                        st.off[dk] = (kb, a[0])
                 return
             if base in ("Eq", "Ne", "Lt", "Le", "Gt", "Ge"):
                 if dk is not None and dk[0] == "l":
@@ -643,6 +657,9 @@ class Analysis:
             if not ok and op == "Sub" and ka is not None and kb is not None and (ka, kb) in st.ge and res is not None and r and res[1] <= r[1]:
                 ok = True
                 why += " with lhs >= rhs established"
+            if not ok and op == "Sub" and res is not None and r and res[1] <= r[1] and self.diff_nonneg(st, ka, kb):
+                ok = True
+                why += " with lhs >= rhs established through +-const definitions"
             self.record(bb, kind, why, ok, ta or tb, why, t["span"])
             self.sinks[(bb, kind)].ops = (flow.expr_of(self.body, t["ops"][0], bb), flow.expr_of(self.body, t["ops"][1], bb))
         elif kind in ("DivisionByZero", "RemainderByZero"):
@@ -727,6 +744,9 @@ class Analysis:
             k0 = self.key_of_place(op_place(args[0])) if op_place(args[0]) else None
             if k0 is not None and k0 in st.tags:
                 self.write(st, t["dest"], ivs[0][0], tn, st.tags[k0])
+                dk_ = self.key_of_place(t["dest"])
+                if dk_ is not None and dk_ != k0:
+                    st.off[dk_] = (k0, 0)
                 return
         if re.search(r"as std::convert::(From|Into)<.*>>::(from|into)$|^std::convert::(From|Into)::(from|into)$|impl std::convert::From<\w+> for \w+>::from$", c) and ivs and ivs[0][0] is not None and int_in(dty):
             r = int_in(dty)
@@ -748,12 +768,18 @@ class Analysis:
             lo0 = int_in(dty)[0]
             res = (max(a[0] - b[1], lo0), max(a[1] - b[0], lo0))
             self.write(st, t["dest"], res, tn, ("payload",))
+            dk_ = self.key_of_place(t["dest"])
+            if dk_ is not None and ivs[0][1] is not None and ivs[1][1] is None and b[0] == b[1]:
+                st.off[dk_] = (ivs[0][1], -b[0])
             return
         elif re.search(r"(Option|Result)::<T(, E)?>::(unwrap|expect|unwrap_or_default|ok_or|ok_or_else)$|as std::ops::Try>::branch$|^std::ops::Try::branch$|::map_err$", c) and ivs and int_in(dty):
             res = ivs[0][0]
             k0 = ivs[0][1]
             if k0 is not None and k0 in st.tags:
                 self.write(st, t["dest"], res, tn, st.tags[k0])
+                dk_ = self.key_of_place(t["dest"])
+                if dk_ is not None and dk_ != k0:
+                    st.off[dk_] = (k0, 0)
                 return
         elif name in ("saturating_sub",) and len(ivs) == 2 and ivs[0][0] and ivs[1][0] and ty_range(dty):
             a, b = ivs[0][0], ivs[1][0]
@@ -830,6 +856,32 @@ class Analysis:
                     continue
                 pair = (ak, dk) if rel[0] == "min" else (dk, ak)
                 self.add_ge(st, *pair)
+
+    @staticmethod
+    def norm(st, k):
+        """k == root + c, following recorded `x = y +- const` definitions"""
+        c, seen = 0, set()
+        while k in st.off and k not in seen:
+            seen.add(k)
+            b, d = st.off[k]
+            k, c = b, c + d
+        return k, c
+
+    def diff_nonneg(self, st, ka, kb):
+        """a - b >= 0 proved from a = ra + ca, b = rb + cb and a known fact x >= y with x = ra + cx, y = rb + cy:
+        a - b = (x - y) + (ca - cx) - (cb - cy) >= (ca - cx) - (cb - cy)"""
+        if ka is None or kb is None:
+            return False
+        ra, ca = self.norm(st, ka)
+        rb, cb = self.norm(st, kb)
+        if ra == rb:
+            return ca - cb >= 0
+        for (x, y) in st.ge:
+            rx, cx = self.norm(st, x)
+            ry, cy = self.norm(st, y)
+            if rx == ra and ry == rb and (ca - cx) - (cb - cy) >= 0:
+                return True
+        return False
 
     @staticmethod
     def add_ge(st, hi, lo):
